@@ -259,6 +259,14 @@ fn simplify(ev: &Ev, viol: &Violation) -> Vec<Ev> {
                 out.push(Ev::PskProbe { psk: psk.clone(), psk_id: B(vec![psk_id[0]]) });
             }
         }
+        Ev::On { w, t, inner } => {
+            if *t != 0 {
+                out.push(Ev::On { w: *w, t: 0, inner: inner.clone() });
+            }
+            for x in simplify(inner, viol) {
+                out.push(Ev::On { w: *w, t: *t, inner: Box::new(x) });
+            }
+        }
         _ => {}
     }
     out
